@@ -827,6 +827,7 @@ Rock::Rebuild::addSlotToEntry(const sfileno fileno, const SlotId slotId, const D
         }
 
         le.anchored(true);
+        le.version = header.version; // the inode determines the chain version
 
         if (!importEntry(anchor, fileno, header)) {
             freeBadEntry(fileno, "corrupted metainfo");
@@ -844,6 +845,14 @@ Rock::Rebuild::addSlotToEntry(const sfileno fileno, const SlotId slotId, const D
                 return;
             }
         }
+    } else if (le.anchored() && header.firstSlot == anchor.start &&
+               header.version != le.version) {
+        // This slot names our inode as its first slot but was written for
+        // another version of the entry: The first slots of a replaced version
+        // get reused by the next version (with the same inode position), while
+        // its last slots may survive on disk with valid links into our chain.
+        freeBadEntry(fileno, "version mismatch");
+        return;
     }
 
     const uint64_t totalSize = anchor.basics.swap_file_sz; // may be 0/unknown
